@@ -60,6 +60,22 @@ def enc(s):
     return "s:" + "".join(out)
 
 
+# ECMA-262 StrWhiteSpaceChar = WhiteSpace (TAB VT FF ZWNBSP + Unicode Zs) + LineTerminator (LF CR LS PS)
+WS = ["\t", "\x0b", "\x0c", " ", "\xa0", "\ufeff", "\u1680", "\u2000", "\u2001", "\u2005", "\u200a", "\u202f", "\u205f", "\u3000",
+      "\n", "\r", "\u2028", "\u2029"]
+NOT_WS = ["\x85", "\u180e", "\u200b", "\u200c", "\u2060", "\x00", "\x1f"]
+
+
+def ws(rng, p=0.5):
+    """a (possibly empty) run of white space"""
+    if rng.random() > p:
+        return ""
+    r = rng.random()
+    if r < 0.5:
+        return " " * rng.randrange(1, 3)
+    return "".join(rng.choice(WS) for _ in range(rng.randrange(1, 4)))
+
+
 def halfway_digits(k):
     """(S, E): the decimal S×10^E that lies exactly between the doubles with ordinals k and k+1
     (k+1 = INF_ORD gives the overflow threshold)."""
@@ -277,7 +293,7 @@ def gen_halfway_strings(rng, n, ops):
                 else:
                     ops.append(("lit " + enc(txt), cls))
             else:
-                ops.append(("num " + enc(rng.choice(["", "~", "~~"]) + sign + txt + rng.choice(["", "~"])), cls))
+                ops.append(("num " + enc(ws(rng) + sign + txt + ws(rng)), cls))
 
 
 def gen_random_decimal(rng, n, ops):
@@ -335,11 +351,11 @@ def gen_int_strings(rng, n, ops):
         which = rng.randrange(5)
         if which <= 1:
             sign = rng.choice(["", "", "-", "+"])
-            tail = rng.choice(["", "", "", ".", "px", "~", "_", ".9"])
+            tail = rng.choice(["", "", "", ".", "px", " ", "_", ".9", "\u3000", "\x85"])
             if r == 16 and rng.random() < 0.5:
                 ops.append(("pint %d %s" % (rng.choice([0, 16]), enc(sign + rng.choice(["0x", "0X"]) + ds + tail)), cls))
             elif r == 10 and rng.random() < 0.5:
-                ops.append(("pint 0 " + enc(rng.choice(["", "~"]) + sign + ds + tail), cls))
+                ops.append(("pint 0 " + enc(ws(rng) + sign + ds + tail), cls))
             else:
                 ops.append(("pint %d %s" % (r, enc(sign + ds + tail)), cls))
         else:
@@ -353,17 +369,46 @@ def gen_int_strings(rng, n, ops):
             elif which == 3:
                 ops.append(("num " + enc(pre + ds), cls))
             else:
-                ops.append(("num " + enc(rng.choice(["", "-", "+", "~"]) + pre + ds + rng.choice(["", "", "~", "n", "."])), cls))
+                ops.append(("num " + enc(rng.choice(["", "-", "+", " ", "\ufeff\n"]) + pre + ds + rng.choice(["", "", " ", "n", ".", "\u2029"])), cls))
 
 
-MISC_STRINGS = ["", "~", "Infinity", "-Infinity", "+Infinity", "infinity", "INFINITY", "Inf", "inf", "NaN", "nan", "1e", "1e+", "e5",
+MISC_STRINGS = ["", " ", "Infinity", "-Infinity", "+Infinity", "infinity", "INFINITY", "Inf", "inf", "NaN", "nan", "1e", "1e+", "e5",
                 ".", "+.", "-.", "0x", "0b", "0o", "0x1p3", "1_0", "1__0", "_1", "++1", "--1", "+-1", "1..2", "1.2.3", "- 1", "0b102",
                 "0o8", "0xg", "-0x10", "+0x10", "-0b1", "1e1e1", "1e1.5", ".e1", "0.e1", "0e0", "-0", "+0", "-0.0", "0.0e-999", "-0e999",
                 "00", "007", "08", "1e0001", "1e-0001", "1E5", "1e+5", ".5", "5.", "-.5", "+5.", "5.e1", "٣", "1,5", "1 2", "0x 1",
                 "1e400", "-1e400", "1e-400", "-1e-400", "Infinityx", "Infinity1", "1n", "0x10n", "9007199254740993", "9007199254740992",
                 "4.9e-324", "2.4703282292062327e-324", "2.4703282292062328e-324", "2.47032822920623272e-324", "1.7976931348623158e308",
-                "1.7976931348623159e308", "0x-5", "0x+5", "0b-1", "0o+7", "0x_1", "0x1_0", "0X", "0b2", "0o9", "1e-", "+Infinity~", "Infinity~x", "179769313486231580793728971405303415079934132710037826936173778980444968292764750946649017977587207096330286416692887910946555547851940402630657488671505820681908902000708383676273854845817711531764475730270069855571366959622842914819860834936475292719074168444365510704342711559699508093042880177904174497791.999",
+                "1.7976931348623159e308", "0x-5", "0x+5", "0b-1", "0o+7", "0x_1", "0x1_0", "0X", "0b2", "0o9", "1e-", "+Infinity ", "Infinity x", " Infinity", "- Infinity", "\ufeff-Infinity\u2028", "179769313486231580793728971405303415079934132710037826936173778980444968292764750946649017977587207096330286416692887910946555547851940402630657488671505820681908902000708383676273854845817711531764475730270069855571366959622842914819860834936475292719074168444365510704342711559699508093042880177904174497791.999",
                 "0x7fffffffffffffff", "0x8000000000000000", "0xffffffffffffffff", "0x10000000000000000", "0b" + "1" * 64, "0o" + "7" * 22]
+
+
+def gen_ws(rng, n, ops):
+    """white-space handling: every StrWhiteSpaceChar (and look-alikes that are NOT white space) around / inside numeric text"""
+    bodies = ["12", "-1.5", "+.5e1", "0x1f", "Infinity", "-Infinity", "1e21", "0", "-0", "5e-324", "9007199254740993", "0b11", ""]
+    for _ in range(n):
+        b = rng.choice(bodies)
+        r = rng.random()
+        if r < 0.45:
+            t = "".join(rng.choice(WS) for _ in range(rng.randrange(0, 4))) + b + "".join(rng.choice(WS) for _ in range(rng.randrange(0, 4)))
+            cls = "ws-trim"
+        elif r < 0.7:
+            c = rng.choice(NOT_WS)
+            t = rng.choice([c + b, b + c, rng.choice(WS) + c + b, b + c + rng.choice(WS)])
+            cls = "ws-lookalike"
+        elif r < 0.85 and len(b) > 1:
+            i = rng.randrange(1, len(b))
+            t = b[:i] + rng.choice(WS) + b[i:]
+            cls = "ws-inside"
+        else:
+            t = "".join(rng.choice(WS + NOT_WS) for _ in range(rng.randrange(1, 4)))
+            cls = "ws-only"
+        which = rng.randrange(3)
+        if which == 0:
+            ops.append(("num " + enc(t), cls))
+        elif which == 1:
+            ops.append(("pfloat " + enc(t), cls))
+        else:
+            ops.append(("pint %d %s" % (rng.choice([0, 10, 16, 0, 2]), enc(t)), cls))
 
 
 def gen_misc(rng, ops):
@@ -380,14 +425,15 @@ def gen_misc(rng, ops):
 
 def gen_ops(seed, shard, tier):
     rng = random.Random(seed * 1000003 + shard * 7919 + (17 if tier == "thorough" else 0))
-    f = 1 if tier == "quick" else 8
+    f = 1 if tier == "quick" else 11
     ops = []
-    for (b, cls) in gen_doubles(rng, 420 * f):
+    for (b, cls) in gen_doubles(rng, 300 * f):
         ops_for_double(rng, b, cls, ops)
-    gen_tie_ops(rng, 110 * f, ops)
-    gen_halfway_strings(rng, 420 * f, ops)
-    gen_random_decimal(rng, 550 * f, ops)
-    gen_int_strings(rng, 650 * f, ops)
+    gen_tie_ops(rng, 80 * f, ops)
+    gen_halfway_strings(rng, 300 * f, ops)
+    gen_random_decimal(rng, 400 * f, ops)
+    gen_int_strings(rng, 450 * f, ops)
+    gen_ws(rng, 200 * f, ops)
     if shard == 0:
         gen_misc(rng, ops)
     return ops
@@ -411,44 +457,12 @@ def to_driver_line(op, res):
     return op + " " + res
 
 
-def int_value_of(op):
-    """for integer-string ops: (kind, radix, magnitude) of the integer the text denotes, else None (classification of known findings only)"""
-    w = op.split(" ")
-    try:
-        if w[0] == "pint":
-            r = int(w[1])
-            s = w[2][2:].replace("~", " ").strip()
-            if s[:1] in "+-":
-                s = s[1:]
-            if r in (0, 16) and s[:2] in ("0x", "0X"):
-                s, r = s[2:], 16
-            if r == 0:
-                r = 10
-            n = 0
-            k = 0
-            for c in s.lower():
-                d = DIG.find(c)
-                if d < 0 or d >= r:
-                    break
-                n = n * r + d
-                k += 1
-            return ("pint", r, n) if k else None
-        if w[0] in ("lit", "num"):
-            s = w[1][2:].replace("~", " ").strip()
-            pre = s[:2].lower()
-            if pre in ("0x", "0o", "0b"):
-                r = {"0x": 16, "0o": 8, "0b": 2}[pre]
-                return (w[0], r, int(s[2:], r))
-    except (ValueError, IndexError):
-        return None
-    return None
-
-
 def signature(op, res, verdict):
     """canonical class of a rejected conversion: operation + the checker's reason (matched against
     known_findings.d/C12.json; all entries there are `fixed` now and suppress nothing)"""
     w = op.split(" ")
     why = verdict[4:] if verdict.startswith("bad ") else verdict
+    why = why.split(" expected=")[0]
     if res == "TIMEOUT":
         why = "hang"
     elif res == "CRASH" or res.startswith("PANIC"):
@@ -525,7 +539,7 @@ def judge(ctx, harness, model, ops):
     return list(zip(ops, res, dl, verd)), None
 
 
-THEOREMS_MIN = 10
+THEOREMS_MIN = 14
 
 
 def main(ctx):
@@ -533,7 +547,9 @@ def main(ctx):
     ctx.audit("GojaModel.C12.Props", expect_min=THEOREMS_MIN)
     if ctx.tier == "thorough":
         ctx.leanchecker("GojaModel.C12.Props")
+    ctx.log("lean build + audit done")
     harness = ctx.go_build("c12")
+    ctx.log("harness built")
     model = ctx.model_exe("model_c12")
     ctx.trusted_base += [
         "C12: the transcription of ECMA-262 text grammars/layouts (StringToNumber, parseFloat, parseInt, NumericLiteral; Number::toString, "
@@ -545,8 +561,7 @@ def main(ctx):
         "Universality over all 2^64 doubles x digit counts x radices and over all strings is SAMPLED: every checked output is certified "
         "by a proved checker (dtoa_certified_partial); outputs not generated are not covered.",
         "No model of ftoa's dtoa/Grisu internals; a change there is visible only through an output some checker rejects.",
-        "parseInt: the sign of a zero result is not checked (property text: 'nearest double').",
-        "Magnitudes >= 10^400 / < 10^-400 in input text are classified huge/tiny without expanding the power (driver logic, not a theorem).",
+                "Magnitudes >= 10^400 / < 10^-400 in input text are classified huge/tiny without expanding the power (driver logic, not a theorem).",
     ]
     if harness is None or not os.path.exists(model):
         if not os.path.exists(model):
@@ -581,6 +596,7 @@ def main(ctx):
             distinct += out["distinct"]; nontriv += out["nontriv"]
             for s in out["samples"]:
                 ctx.sample(s)
+    ctx.log("shards done")
     ctx.obligation("corr:pipeline(harness+checker ran on every generated conversion)", "correspondence", not errors, "; ".join(errors)[:1500])
     # distinct non-trivial cases: distinct op lines (per shard; shards use different seeds) whose verdict is not a NaN/Inf/zero special
     ctx.nontrivial = set(range(nontriv))
@@ -589,7 +605,22 @@ def main(ctx):
     ctx.stats["input_classes"] = dict(cls)
     ctx.stats["checker_tags"] = dict(tags)
 
-    ctx.stats["hangs(TIMEOUT: >1.5 s CPU without a result)"] = sum(1 for row in bad_all if row[1] == "TIMEOUT")
+    # A TIMEOUT (the worker burnt > 1.5 s of CPU on one conversion) or CRASH is inconclusive until confirmed:
+    # the op is re-run alone (at most 6 ops per run) with a 6 s CPU limit and re-judged; only a repeat counts.
+    sus = [row for row in bad_all if row[1] in ("TIMEOUT", "CRASH")]
+    if sus:
+        env = dict(os.environ); env["VERIF_C12_LIMIT_MS"] = "6000"
+        redone = []
+        for row in sus[:6]:
+            p1 = subprocess.run([harness], input=row[0] + "\n", stdout=subprocess.PIPE, stderr=subprocess.PIPE, text=True, env=env)
+            r = (p1.stdout.split("\n") or ["CRASH"])[0] or "CRASH"
+            d = to_driver_line(row[0], r)
+            p2 = subprocess.run([model], input=d + "\n", stdout=subprocess.PIPE, stderr=subprocess.PIPE, text=True)
+            v = (p2.stdout.split("\n") or ["bad checker-crash"])[0] or "bad checker-crash"
+            redone.append((row[0], r, d, v, row[4]))
+        ids = {id(r) for r in sus[:6]}
+        bad_all = [row for row in bad_all if id(row) not in ids] + [x for x in redone if not x[3].startswith("ok ")]
+        ctx.stats["timeouts"] = {"first_pass": len(sus), "retried": len(redone), "confirmed": sum(1 for x in redone if x[1] in ("TIMEOUT", "CRASH"))}
     # every rejected output is a concrete violation of the property on the real implementation
     sigs = collections.OrderedDict()
     for (o, r, d, v, c) in bad_all:
